@@ -165,13 +165,13 @@ fn invocation(c: &MacroCase) -> String {
     for (i, (k, v, has_list, edges)) in c.nodes.iter().enumerate() {
         let head = match c.form {
             Form::K | Form::KE => format!("({})", key_lit(c, *k)),
-            _ => format!("({}, {})", key_lit(c, *k), if v % 3 == 0 { format!("val({})", v) } else if v.rem_euclid(6) == 1 { format!("cell.borrow_mut().take({})", v) } else { format!("{}", v) }),
+            _ => format!("({}, {})", key_lit(c, *k), if v % 3 == 0 { format!("val({})", v) } else if v.rem_euclid(6) == 1 { format!("cell.borrow_mut().take({})", v) } else if v.rem_euclid(6) == 5 { format!("named({}, Ordering::Equal) + Bfs::Z + Order::Z + Path::Z", v) } else { format!("{}", v) }),
         };
         let mut es: Vec<String> = edges
             .iter()
             .map(|(t, ev, call)| match c.form {
                 Form::K | Form::KN => key_lit(c, *t),
-                _ => format!("({}, {})", key_lit(c, *t), if *call && ev % 2 == 1 { format!("cell.borrow_mut().take({})", ev) } else if *call { format!("val({})", ev) } else { format!("{}", ev) }),
+                _ => format!("({}, {})", key_lit(c, *t), if *call && ev % 2 == 1 { format!("cell.borrow_mut().take({})", ev) } else if *call && ev % 4 == 2 { format!("named({}, Ordering::Equal) + Dfs::Z + Pfs::Z + Method::Z + Transposition::Z + Adjacent::Z", ev) } else if *call { format!("val({})", ev) } else { format!("{}", ev) }),
             })
             .collect();
         let mut listed = *has_list;
@@ -251,7 +251,7 @@ fn denotation(c: &MacroCase) -> (String, BTreeMap<String, Vec<(String, String)>>
 
 fn c14_program(cases: &[MacroCase]) -> String {
     let mut s = String::from(
-        "#![allow(unused, clippy::all)]\nuse gdsl::*;\nuse std::fmt::Debug;\nfn val(x: i64) -> i64 { x }\nstruct Ctr(usize);\nimpl Ctr { fn take(&mut self, x: i64) -> i64 { self.0 += 1; x } }\n\
+        "#![allow(unused, clippy::all)]\nuse gdsl::*;\nuse std::fmt::Debug;\nuse std::cmp::Ordering;\nfn val(x: i64) -> i64 { x }\n/// caller-side items whose names a macro expansion must not capture\nstruct Bfs; struct Dfs; struct Pfs; struct Order; struct Path; struct Method; struct Transposition; struct Adjacent;\nimpl Bfs { const Z: i64 = 0; } impl Dfs { const Z: i64 = 0; } impl Pfs { const Z: i64 = 0; } impl Order { const Z: i64 = 0; } impl Path { const Z: i64 = 0; } impl Method { const Z: i64 = 0; } impl Transposition { const Z: i64 = 0; } impl Adjacent { const Z: i64 = 0; }\nfn named(x: i64, o: Ordering) -> i64 { x + (o as i64) - (Ordering::Equal as i64) }\nstruct Ctr(usize);\nimpl Ctr { fn take(&mut self, x: i64) -> i64 { self.0 += 1; x } }\n\
 fn show<T: Debug>(t: &T) -> String { format!(\"{:?}\", t) }\n\
 macro_rules! dump_directed { ($g:expr) => {{ let g = &$g; let mut ks: Vec<_> = g.iter().map(|(k, _)| k.clone()).collect(); ks.sort(); let mut s = String::new(); for k in ks { let n = g.get(&k).unwrap(); let es: Vec<String> = n.iter_out().map(|e| format!(\"{}/{}\", e.1.key(), show(&e.2))).collect(); let ins = n.iter_in().count(); s.push_str(&format!(\"{}:{}:[{}];\", k, show(n.value()), es.join(\",\"))); let _ = ins; } s }} }\n\
 macro_rules! dump_undirected { ($g:expr) => {{ let g = &$g; let mut ks: Vec<_> = g.iter().map(|(k, _)| k.clone()).collect(); ks.sort(); let mut s = String::new(); let mut raw = String::new(); for k in ks { let n = g.get(&k).unwrap(); let mut es: Vec<String> = n.iter().map(|e| format!(\"{}/{}\", e.1.key(), show(&e.2))).collect(); raw.push_str(&format!(\"{}=>{}|\", k, es.join(\",\"))); es.sort(); s.push_str(&format!(\"{}:{}:[{}];\", k, show(n.value()), es.join(\",\"))); } format!(\"{} RAW {}\", s, raw) }} }\n",
@@ -349,7 +349,7 @@ fn c14_judge(c: &MacroCase, line: Option<&str>) -> Result<(), (&'static str, Str
 }
 
 pub fn run_c14(ctx: &mut Ctx) {
-    ctx.rule = "cases = macro invocations as program text: digraph!/ungraph!/sync_digraph!/sync_ungraph! x the four signature forms (K), (K,N), (K)=>[E], (K,N)=>[E] x key type u32/&str, 0-6 nodes with non-contiguous keys listed in rotated order (forward references), edge lists present / empty / omitted, self-loops, repeated edges, values given as literals, calls, or calls through a guard temporary (`cell.borrow_mut().take(v)`, counted: each value expression is evaluated exactly once and its temporaries do not outlive it); 15% ill-formed (one edge to an unlisted key); plus per flavour the empty form and both arities of *_node! and *_connect!. Drawn from proptest strategies with the run's seed, emitted into one program per batch, compiled against /repo's working tree with the result type ascribed (gdsl::<flavour>::Graph<K,N,E>), run, and the dump (nodes, values, each node's edges in iteration order) compared with the denotation: directed out-lists exactly, undirected incidence multisets plus listed order of the node's own edges; ill-formed => panic naming the key. Non-trivial = invocation with a forward reference, a repeated edge or a self-loop; distinct = hash of the invocation.".into();
+    ctx.rule = "cases = macro invocations as program text: digraph!/ungraph!/sync_digraph!/sync_ungraph! x the four signature forms (K), (K,N), (K)=>[E], (K,N)=>[E] x key type u32/&str, 0-6 nodes with non-contiguous keys listed in rotated order (forward references), edge lists present / empty / omitted, self-loops, repeated edges, values given as literals, calls, expressions naming caller-side items (std::cmp::Ordering and caller types called Bfs, Dfs, Pfs, Order, Path, Method, Transposition, Adjacent, which an expansion must not capture), or calls through a guard temporary (`cell.borrow_mut().take(v)`, counted: each value expression is evaluated exactly once and its temporaries do not outlive it); 15% ill-formed (one edge to an unlisted key); plus per flavour the empty form and both arities of *_node! and *_connect!. Drawn from proptest strategies with the run's seed, emitted into one program per batch, compiled against /repo's working tree with the result type ascribed (gdsl::<flavour>::Graph<K,N,E>), run, and the dump (nodes, values, each node's edges in iteration order) compared with the denotation: directed out-lists exactly, undirected incidence multisets plus listed order of the node's own edges; ill-formed => panic naming the key. Non-trivial = invocation with a forward reference, a repeated edge or a self-loop; distinct = hash of the invocation.".into();
     ctx.assumptions = vec!["no shrinking for program cases (every shrink step costs a compilation); invocations are small by construction".into(), "repeated node keys are not generated (the statement does not define them)".into()];
     let tier = ctx.tier;
     let batches = tier.pick(1usize, 8usize);
@@ -1101,7 +1101,9 @@ macro_rules! variants { ($m:ident, $name:expr, $si:expr, $n:expr, $prio:expr, $s
     let t5 = $m::run::<u16, Score, u32>($n, $prio, $steps, &|i| i as u16, &|p| score(p), &|e| e as u32, &|e| *e as usize);
     // long keys made of multi-byte characters (error messages, Display widths, byte-offset arithmetic)
     let t6 = $m::run::<String, i64, u32>($n, $prio, $steps, &|i| format!("{}東京都千代田区丸の内一丁目東京都-{}", "a".repeat(i % 4), i), &|p| p, &|e| e as u32, &|e| *e as usize);
-    for (tag, a, b) in [("long-multibyte-String-keys", &t0, &t6), ("String-keys,unit-edges", &t0e, &t1), ("u64::MAX-values,String-node-values", &t0, &t2), ("char-keys,tuple-edges", &t0, &t3), ("keys-with-colliding-Hash-and-Display", &t0, &t4), ("node-values-with-PartialOrd-coarser-than-Ord", &t0, &t5)] {
+    // keys of more than a thousand bytes (3-byte characters behind 0-3 ASCII bytes)
+    let t7 = $m::run::<String, i64, u32>($n, $prio, $steps, &|i| format!("{}{}-{}", "b".repeat(i % 4), "日本語".repeat(120 + i), i), &|p| p, &|e| e as u32, &|e| *e as usize);
+    for (tag, a, b) in [("kilobyte-multibyte-String-keys", &t0, &t7), ("long-multibyte-String-keys", &t0, &t6), ("String-keys,unit-edges", &t0e, &t1), ("u64::MAX-values,String-node-values", &t0, &t2), ("char-keys,tuple-edges", &t0, &t3), ("keys-with-colliding-Hash-and-Display", &t0, &t4), ("node-values-with-PartialOrd-coarser-than-Ord", &t0, &t5)] {
         if a != b {
             let i = a.iter().zip(b.iter()).position(|(x, y)| x != y).unwrap_or(a.len().min(b.len()));
             println!("DIFF {} {} {} step {} :: baseline `{}` :: variant `{}`", $si, $name, tag, i, a.get(i).map(|s| s.as_str()).unwrap_or("<none>"), b.get(i).map(|s| s.as_str()).unwrap_or("<none>"));
@@ -1255,5 +1257,5 @@ pub fn payload_independence(ctx: &mut Ctx, prop: &'static str) {
         ctx.stats.nontrivial(&("payload", sc));
     }
     ctx.stats.sample_kind("payload-script", 1, || json!({"payload_script": scripts[0], "run_with": ["(u16,i32,u32) baseline", "(String,i64,())", "(u64 near MAX, String, u64 near MAX)", "(char,i64,(u8,Vec<u8>))", "(WKey: Hash collides for every second key, Display not injective; i64; u32)", "(u16; Score(f64) with IEEE PartialOrd but total-order Ord, using -0.0 / 0.0; u32)", "(String keys of 40+ bytes made of 3-byte characters behind 0-3 ASCII bytes; i64; u32)"], "on": MODS}));
-    ctx.stats.extra.insert("payload_independence".into(), json!({"scripts": nscripts, "variants": 6, "flavours": 4, "identical_traces": same}));
+    ctx.stats.extra.insert("payload_independence".into(), json!({"scripts": nscripts, "variants": 7, "flavours": 4, "identical_traces": same}));
 }
